@@ -46,3 +46,8 @@ def tg_dict_roundtrip(tg, reportingMode):
     from praatio.data_classes import textgrid as tgclasses
     from praatio import textgrid as tgmod
     return tgmod._dictionaryToTg(tgclasses._tgToDictionary(tg), reportingMode)
+
+
+def shift_there_and_back(tier, x):
+    """C09: shifting by +x then -x restores every entry when nothing was clipped"""
+    return tier.editTimestamps(x, "silence").editTimestamps(-x, "silence")
